@@ -61,6 +61,8 @@ int main(int argc, char **argv) {
     /* ---- host name in a private UTS namespace */
     const char *host = kv(kvs, "host", "-");
     if (strcmp(host, "-")) { if (unshare(CLONE_NEWUTS)) { perror("unshare uts"); return 3; } if (sethostname(host, strlen(host))) { perror("sethostname"); return 3; } }
+    /* ---- orphan: be re-parented to init / the nearest subreaper (ancestor chain of length one) */
+    if (atoi(kv(kvs, "orphan", "0"))) { pid_t p = fork(); if (p > 0) _exit(0); for (int i = 0; i < 2000 && getppid() != 1 && i < 200; i++) usleep(1000); }
     /* ---- session */
     if (atoi(kv(kvs, "setsid", "0"))) { pid_t p = fork(); if (p > 0) { int st; waitpid(p, &st, 0); _exit(WIFEXITED(st) ? WEXITSTATUS(st) : 99); } setsid(); }
     /* ---- stdin */
@@ -101,16 +103,18 @@ int main(int argc, char **argv) {
     static char *av[] = { "prog", "arg", NULL }; snoopy_inputdatastorage_store_argv(av);
     snoopy_inputdatastorage_store_envp(environ);
     printf("{");
-    struct timeval t0, t1; gettimeofday(&t0, NULL);
+    struct timeval t0, t1; t0.tv_sec = time(NULL) - 0; /* coarse clock: never ahead of what the data sources read */
     /* ---- (a) data sources */
     printf("\"ds\":{");
     char *dsl = strdup(kv(kvs, "ds", "")); char *s3 = NULL; int first = 1; size_t bufsz = 1 << 17; char *buf = malloc(bufsz);
     for (char *it = strtok_r(dsl, ",", &s3); it; it = strtok_r(NULL, ",", &s3)) {
         char *full = unhex(it); char *arg = strchr(full, ':'); if (arg) *arg++ = 0; else arg = "";
+        /* production-sized buffer first (default datasource_message_max_length 2047 + NUL), then a large one */
+        char *sbuf = malloc(2048); sbuf[0] = 0; int rvs = snoopy_datasourceregistry_callByName(full, sbuf, 2048, arg);
         buf[0] = 0; int rv = snoopy_datasourceregistry_callByName(full, buf, bufsz, arg);
         if (!first) printf(","); first = 0;
         char key[600]; snprintf(key, sizeof key, "%s%s%s", full, *arg ? ":" : "", arg);
-        printf("\""); for (unsigned char *p = (unsigned char *)key; *p; p++) printf("%02x", *p); printf("\":{\"rv\":%d,", rv); jhex("v", buf); printf("}");
+        printf("\""); for (unsigned char *p = (unsigned char *)key; *p; p++) printf("%02x", *p); printf("\":{\"rv\":%d,\"rvs\":%d,", rv, rvs); jhex("v", buf); printf(","); jhex("vs", sbuf); printf("}"); free(sbuf);
     }
     printf("},");
     gettimeofday(&t1, NULL);
